@@ -64,9 +64,10 @@ const (
 	OpConnClose
 	OpYield
 	OpCancel
+	OpResume
 )
 
-var opNames = []string{"start", "send", "recv", "close", "len", "select", "lock", "unlock", "rlock", "runlock", "trylock", "wgadd", "wgwait", "once", "atomic", "sleep", "timer", "choice", "connread", "connwrite", "connclose", "yield", "cancel"}
+var opNames = []string{"start", "send", "recv", "close", "len", "select", "lock", "unlock", "rlock", "runlock", "trylock", "wgadd", "wgwait", "once", "atomic", "sleep", "timer", "choice", "connread", "connwrite", "connclose", "yield", "cancel", "resume"}
 
 func (k OpKind) String() string { return opNames[k] }
 
@@ -135,6 +136,8 @@ type G struct {
 	wake    chan int // scheduler -> goroutine: the decision (alternative index)
 	hash    uint64
 	arrived int64
+	stamped bool
+	wasBlocked bool // found blocked inside its operation by the scheduler
 	spawned int
 	exec    *Exec
 }
@@ -258,8 +261,7 @@ func (e *Exec) point(g *G, o *op) int {
 	g.op = o
 	g.state = gAtPoint
 	g.inOp = false
-	e.seq++
-	g.arrived = e.seq
+	g.stamped = false
 	e.mu.Unlock()
 	var d int
 	select {
@@ -271,7 +273,18 @@ func (e *Exec) point(g *G, o *op) int {
 }
 
 // done marks the released operation as completed and mixes the happens-before hashes.
+// A goroutine that was found blocked inside the operation (and has now been let through
+// by another goroutine's operation, a timer or a close) first parks at a "resume" point:
+// at most one goroutine computes at any time, which keeps executions deterministic.
 func (e *Exec) done(g *G, o *op, extra uint64) {
+	e.mu.Lock()
+	blocked := g.wasBlocked
+	g.wasBlocked = false
+	g.inOp = false
+	e.mu.Unlock()
+	if blocked {
+		e.point(g, &op{kind: OpResume, pos: o.pos, pc: o.pc})
+	}
 	e.mu.Lock()
 	g.inOp = false
 	h := mix(g.hash, hstr(o.pos)^uint64(o.kind)<<56^uint64(o.pc)*0x9e3779b1)
@@ -326,8 +339,6 @@ func (e *Exec) spawn(parent *G, pos string, fn func()) *G {
 	g.pathH = hstr(g.path)
 	g.state = gAtPoint
 	g.op = &op{kind: OpStart, pos: pos}
-	e.seq++
-	g.arrived = e.seq
 	e.gs = append(e.gs, g)
 	e.mu.Unlock()
 	ready := make(chan struct{})
@@ -591,8 +602,17 @@ func (e *Exec) loop() {
 			return
 		}
 		for _, g := range e.gs {
-			if g.state == gRunning && !g.inOp {
+			switch {
+			case g.state == gRunning && !g.inOp:
 				e.Unmodelled++
+			case g.state == gRunning && g.inOp:
+				g.wasBlocked = true
+			case g.state == gAtPoint && !g.stamped:
+				// arrival order is assigned here, in goroutine creation order, so that it
+				// does not depend on how the Go runtime interleaved the last computations
+				g.stamped = true
+				e.seq++
+				g.arrived = e.seq
 			}
 		}
 		cands := e.collect()
@@ -658,6 +678,7 @@ func (e *Exec) loop() {
 		g := c.g
 		g.state = gRunning
 		g.inOp = true
+		g.wasBlocked = false
 		e.lastRun = g
 		e.mu.Unlock()
 		g.wake <- c.alt
